@@ -295,3 +295,94 @@ package bitcoin_reader
 //@ functype HandleBlock
 //@   params ctx, header, txCount, txChannel
 //@   modifies allheap
+
+// ---------------------------------------------------------------------------------------------------
+// Transaction manager (C06). Each function is verified sequentially; the critical sections are those of the
+// code (lock discipline of sync.RWMutex is trusted), so the clauses describe what one call does to one entry.
+
+//@ ufunc txHash(tx *wire.MsgTx) bitcoin.Hash32
+//@ pure func inIDs(ids []uuid.UUID, id uuid.UUID) bool = exists(i, 0, len(ids), ids[i] == id)
+//@ pure func distinctIDs(ids []uuid.UUID) bool = forall(i, 0, len(ids), forall(j, 0, len(ids), i != j ==> ids[i] != ids[j]))
+
+//@ func contains
+//@   ensures [C06.contains] result == inIDs(ids, lookup)
+//@   modifies nothing
+//@   loop 1
+//@     invariant (-1 <= rangeindex && rangeindex < len(ids)) || (len(ids) == 0 && rangeindex == -1)
+//@     invariant forall(i, 0, rangeindex+1, ids[i] != lookup)
+
+//@ func appendID
+//@   ensures [C06.append-id] inIDs(result, newID) && len(result) >= len(ids) && len(result) <= len(ids) + 1 && forall(i, 0, len(ids), result[i] == old(ids[i]))
+//@   ensures [C06.append-id-keeps-distinct] old(distinctIDs(ids)) ==> distinctIDs(result)
+//@   ensures [C06.append-id-only] forall(i, 0, len(result), result[i] == newID || exists(j, 0, len(ids), old(ids[j]) == result[i]))
+//@   ensures arr(result) == arr(ids) || fresh(result)
+//@   modifies elems(ids)
+//@   loop 1
+//@     invariant (-1 <= rangeindex && rangeindex < len(ids)) || (len(ids) == 0 && rangeindex == -1)
+//@     invariant forall(i, 0, rangeindex+1, ids[i] != newID)
+
+//@ func removeID
+//@   ensures [C06.remove-id] old(distinctIDs(ids)) ==> !inIDs(result, newID) && distinctIDs(result)
+//@   ensures [C06.remove-id-subset] forall(i, 0, len(result), exists(j, 0, len(ids), old(ids[j]) == result[i])) && len(result) <= len(ids)
+//@   ensures arr(result) == arr(ids)
+//@   modifies elems(ids)
+//@   loop 1
+//@     invariant (-1 <= rangeindex && rangeindex < len(ids)) || (len(ids) == 0 && rangeindex == -1)
+//@     invariant forall(i, 0, rangeindex+1, ids[i] != newID)
+
+// txmOK: 256 buckets, each with a map; every entry is a TxData whose announcer list has no duplicates.
+//@ pure func bucketOK(t *txMap) bool = t != nil && t.txs != nil && forallv(k, bitcoin.Hash32, has(t.txs, k) ==> t.txs[k] != nil)
+//@ pure func entryOK(t *txMap, k bitcoin.Hash32) bool = has(t.txs, k) ==> distinctIDs(t.txs[k].NodeIDs)
+//@ pure func txmOK(m *TxManager) bool = m != nil && len(m.txMaps) == 256 && forall(i, 0, len(m.txMaps), bucketOK(m.txMaps[i])) && m.txChannel != nil && !closed(m.txChannel)
+//@ pure func bucketOf(m *TxManager, txid bitcoin.Hash32) *txMap = m.txMaps[txid[0]]
+
+//@ func (*TxManager).sendTx
+//@   requires m != nil && m.txChannel != nil && !closed(m.txChannel)
+//@   ensures [C06.send-at-most-once] sent(m.txChannel) == old(sent(m.txChannel)) || (sent(m.txChannel) == old(sent(m.txChannel)) + 1 && chanlog(m.txChannel, old(sent(m.txChannel))) == tx)
+//@   modifies chanof(m.txChannel)
+//@   loop 1
+//@     invariant sent(m.txChannel) == atentry(sent(m.txChannel))
+
+//@ func (*TxManager).AddTxID
+//@   requires txmOK(m) && entryOK(bucketOf(m, txid), txid)
+//@   let tm = bucketOf(m, txid)
+//@   ensures [C06.never-after-delivery] old(has(tm.txs, txid) && tm.txs[txid].Received != nil) ==> !result0
+//@   ensures [C06.first-announcer-requests] !old(has(tm.txs, txid)) ==> result0 && has(tm.txs, txid) && tm.txs[txid] != nil && tm.txs[txid].Received == nil && len(tm.txs[txid].NodeIDs) == 0
+//@   ensures [C06.requester-not-listed] result0 && old(has(tm.txs, txid)) ==> !inIDs(tm.txs[txid].NodeIDs, nodeID)
+//@   ensures [C06.waiting-announcer-recorded] !result0 && old(has(tm.txs, txid) && tm.txs[txid].Received == nil) ==> inIDs(tm.txs[txid].NodeIDs, nodeID)
+//@   ensures [C06.received-stable] old(has(tm.txs, txid)) ==> has(tm.txs, txid) && tm.txs[txid] == old(tm.txs[txid]) && tm.txs[txid].Received == old(tm.txs[txid].Received)
+//@   ensures [C06.no-error] result1 == nil
+//@   ensures [C06.invariant] tm != nil && tm.txs != nil && entryOK(tm, txid)
+//@   modifies allheap
+
+//@ func (*TxManager).AddTx
+//@   requires txmOK(m) && tx != nil
+//@   let txid = txHash(tx)
+//@   let tm = bucketOf(m, txHash(tx))
+//@   ensures [C06.deliver-once] old(has(tm.txs, txid) && tm.txs[txid].Received != nil) ==> sent(m.txChannel) == old(sent(m.txChannel))
+//@   ensures [C06.forward-at-most-once] sent(m.txChannel) == old(sent(m.txChannel)) || (sent(m.txChannel) == old(sent(m.txChannel)) + 1 && chanlog(m.txChannel, old(sent(m.txChannel))) == tx)
+//@   ensures [C06.delivered-marked] has(tm.txs, txid) && tm.txs[txid] != nil && tm.txs[txid].Received != nil
+//@   ensures [C06.no-error] result == nil
+//@   modifies allheap, chanof(m.txChannel)
+
+//@ iface github.com/tokenized/bitcoin_reader.TxProcessor.ProcessTx
+//@   params p, ctx, tx
+//@   ensures ghostv("processed", 0) == old(ghostv("processed", 0)) + 1
+//@   modifies ghost("processed")
+//@ iface github.com/tokenized/bitcoin_reader.TxSaver.SaveTx
+//@   params s, ctx, tx
+//@   ensures ghostv("saved", 0) == old(ghostv("saved", 0)) + 1
+//@   modifies ghost("saved")
+
+// Run: every transaction taken from the channel is handed to the processor exactly once, and saved at most once.
+//@ func (*TxManager).Run
+//@   requires m != nil && m.txChannel != nil
+//@   ensures [C06.process-each-once] result == nil && old(m.txProcessor) != nil ==> ghostv("processed", 0) - old(ghostv("processed", 0)) == recvd(m.txChannel) - old(recvd(m.txChannel))
+//@   ensures [C06.save-at-most-once] ghostv("saved", 0) - old(ghostv("saved", 0)) <= ghostv("processed", 0) - old(ghostv("processed", 0))
+//@   modifies allheap, ghost("processed"), ghost("saved"), allchans(*wire.MsgTx)
+//@   loop 1
+//@     modifies allchans(*wire.MsgTx)
+//@     invariant ghostv("processed", 0) == atentry(ghostv("processed", 0)) && ghostv("saved", 0) == atentry(ghostv("saved", 0)) && m.txChannel == atentry(m.txChannel)
+//@   loop 2
+//@     modifies allchans(*wire.MsgTx), ghost("processed"), ghost("saved")
+//@     invariant ghostv("processed", 0) - atentry(ghostv("processed", 0)) == recvd(m.txChannel) - atentry(recvd(m.txChannel)) && ghostv("saved", 0) - atentry(ghostv("saved", 0)) <= ghostv("processed", 0) - atentry(ghostv("processed", 0)) && m.txChannel == atentry(m.txChannel) && txProcessor != nil
